@@ -6,8 +6,6 @@
 package c13
 
 import (
-	"bytes"
-	"encoding/binary"
 	"errors"
 	"fmt"
 	"net"
@@ -1105,14 +1103,3 @@ func (x *exec) react(p *preq, kind string) {
 	}
 }
 
-// ---------------------------------------------------------------- misc
-
-func be16(v uint16) []byte {
-	var b [2]byte
-	binary.BigEndian.PutUint16(b[:], v)
-
-	return b[:]
-}
-
-var _ = bytes.Equal
-var _ = be16
